@@ -103,26 +103,18 @@ def parseOrig (l : String) : Option Bytes :=
   | ["orig", _, c] => some (hx c)
   | _ => none
 
-/-- behaviour of the tree after fixes/C30-decode-aws-chunked-without-auth.patch?
-FLIP to `true` once that patch is committed to /repo. -/
-def c30Fixed : Bool := true
-
-/-- what the model says is stored: `none` = the request fails and nothing is stored -/
+/-- what the model says is stored: `none` = the request fails and nothing is stored.
+Without credentials `SetupServer` installs `MakeAwsChunkedDecodingMiddleware`; with credentials the
+signature middleware (whose anonymous branch decodes the same way). Whether the tree has that
+decoder at all is `HttpTrace.unauthDecoder` (Model/Http/Trace.lean). -/
 def modelStored (authOn : Bool) (cfg : Config) (r : Req) : Option Bytes :=
-  let chunked := hasAwsChunked (headerGet r (b! "Content-Encoding"))
-  let sha := headerGet r contentSHA256Header
-  let hasTrailer := sha == streamingUnsignedTrailer || sha == streamingPayloadTrailer
-  let name := lower (trimSpace (headerGet r (b! "x-amz-trailer")))
-  let framingOnly : Params :=
-    { c := realCrypto, cksum := if hasTrailer then trailerCksum name else none, signKey := [], timestamp := [],
-      scope := [], seed := [], hasTrailer := hasTrailer, trailerSigned := false, skipValidation := true,
-      trailerName := name }
-  let unauthenticated : Option Bytes :=
-    if chunked && c30Fixed then (match decode framingOnly r.body with | .ok p => some p | .error _ => none)
-    else some r.body
+  let unauthenticated : Option Bytes := match unauthBody realCrypto r with
+    | .ok p => some p
+    | .error _ => none
   if !authOn then unauthenticated
   else match predict realCrypto codeFix cfg r with
-    | .anonymous _ => unauthenticated
+    | .anonymous (.ok body) => some body
+    | .anonymous (.error _) => none
     | .rejected _ => none
     | .accepted _ (.ok body) => some body
     | .accepted _ (.error _) => none
